@@ -33,13 +33,14 @@ MANIFEST = {
     "category": "proof",
 }
 
-REQUIRED = ["KV.C10.constants_ok", "KV.C10.accepted_wellformed", "KV.C10.build_total", "KV.C10.trie_error_iff",
+REQUIRED = ["KV.C10.probing_accept_has_empty_bucket", "KV.C10.trie_duplicate_iff", "KV.C10.mapAndVocab_ok", "KV.C10.constants_ok", "KV.C10.accepted_wellformed", "KV.C10.build_total", "KV.C10.trie_error_iff",
             "KV.C10.probing_error_classes", "KV.C10.trie_accept_wellformed", "KV.C10.trie_accept_wellformed_full",
             "KV.C10.parse_unigramsCover", "KV.C10.header_accept_sound", "KV.C10.lookups_in_range",
             "KV.C10.header_mismatch", "KV.C10.header_no_ub"]
 
 KEY_SIZE_PARAMS = "binary-header-size-parameters-edited"
 KEY_ENUM_LOAD = "binary-header-field-outside-type-range"
+KEY_UNK_NGRAM = "unk-in-ngram-without-unk-unigram"
 SIZE_PARAM_KINDS = ("bin-count-edit", "bin-order-raise", "bin-order-lower", "bin-multiplier")
 DIGEST_KINDS = ("bin-trunc-boundary", "bin-trunc-random", "bin-extend", "bin-has-vocab-flip", "bin-fixed-padding", "bin-order-same",
                 "bin-enumerate-without-vocab")
@@ -51,7 +52,19 @@ WORKERS = 6
 
 # ------------------------------------------------------------------------------------------------ running
 
-def run_jobs(hexe, jobs, limit=20):
+MULTS = [1.0001, 1.2, 1.5, 1.5, 2.0]
+
+
+def fbits(x):
+    return struct.unpack("<I", struct.pack("<f", x))[0]
+
+
+def run_driver(dexe, ops, timeout=900):
+    """the Lean driver with an unlimited stack (the loader model recurses once per n-gram line)"""
+    return stream.run_lines("/bin/sh", ops, timeout=timeout, args=["-c", "ulimit -s unlimited 2>/dev/null; exec '%s'" % dexe])
+
+
+def run_jobs(hexe, jobs, limit=10):
     """jobs: list of job lines.  -> {id: (status, detail-dict)}; status in ok|exc|crash|hang|lost"""
     if not jobs:
         return {}
@@ -123,13 +136,13 @@ def family(cls):
     return "P" if cls in "PR" else "T"
 
 
-def arpa_signature(hexe, dexe, work, data, cls, tag="shr"):
+def arpa_signature(hexe, dexe, work, data, cls, tag="shr", mult=1.5, mem=0, limit=10, nq=200, seed=1):
     """(real outcome class ok|exc|crash|hang, model verdict ok|error) of one file for one class"""
     path = os.path.join(work, tag + ".arpa")
     with open(path, "wb") as f:
         f.write(data)
-    r = run_jobs(hexe, ["%s %s %s tmp=%s nq=50" % (tag, cls, path, work)])[tag]
-    rc, out, _ = stream.run_lines(dexe, ["arpa " + path], 60)
+    r = run_jobs(hexe, ["%s %s %s tmp=%s nq=%d seed=%d mult=%r%s" % (tag, cls, path, work, nq, seed, mult, " mem=%d" % mem if mem else "")], limit=limit)[tag]
+    rc, out, _ = run_driver(dexe, ["arpa %s %d %d" % (path, fbits(mult), mem or (1 << 30))], 120)
     m = parse_kv(out[0]) if out else {}
     mv = m.get(family(cls), "?")
     return r[0], ("ok" if mv == "ok" else "error"), m
@@ -138,107 +151,109 @@ def arpa_signature(hexe, dexe, work, data, cls, tag="shr"):
 SHRINK_BUDGET = [3]      # only the first few violations of a run are shrunk (a broken tree produces hundreds)
 
 
-def shrink_arpa(hexe, dexe, work, data, cls, want):
-    """ddmin over lines keeping the (real, model) signature"""
-    if SHRINK_BUDGET[0] <= 0:
+def shrink_arpa(hexe, dexe, work, data, cls, want, mult=1.5, seed=1):
+    """ddmin over lines keeping the (real, model) signature; a hang is re-tested with a 3 s limit"""
+    if SHRINK_BUDGET[0] <= 0 or len(data) > 200000:
         return data
     SHRINK_BUDGET[0] -= 1
     lines = data.split(b"\n")
+    hang = want[0] == "hang"
 
     def fails(ls):
         d = b"\n".join(ls)
-        real, model, m = arpa_signature(hexe, dexe, work, d, cls)
+        real, model, m = arpa_signature(hexe, dexe, work, d, cls, mult=mult, limit=3 if hang else 10, seed=seed)
         return (real, model) == want
 
     try:
-        small = stream.ddmin(lines, fails, max_tests=120)
+        small = stream.ddmin(lines, fails, max_tests=40 if hang else 120)
     except Exception:
         return data
     return b"\n".join(small)
 
 
-def arpa_stream(ctx, hexe, dexe, c01h, c01d, n_base, per_base, oracle_budget):
-    work = fresh_scratch("c10_arpa_%d" % os.getpid())
+def evaluate_arpa(ctx, hexe, dexe, c01h, c01d, work, items, oracle_budget, tag="arpa", limit=10):
+    """items: dicts {id, kind, path, data, mult, mem, classes, queries(optional), abits}.  Runs the model and the real
+    loader on every item and applies the three comparators.  Returns True if a violation was reported."""
     found = False
-    mutants = []      # (id, kind, path, data, base case)
-    for bi in range(n_base):
-        case = lmgen.gen_case(ctx.rng, max_vocab=30, size="small")
-        for mi, (kind, data) in enumerate(mut.arpa_mutants(ctx.rng, case.arpa, per_base)):
-            jid = "a%d_%d" % (bi, mi)
-            path = os.path.join(work, jid + ".arpa")
-            with open(path, "wb") as f:
-                f.write(data)
-            mutants.append((jid, kind, path, data, case))
-    # model verdicts
-    rc, mout, merr = stream.run_lines(dexe, ["arpa " + m[2] for m in mutants], timeout=900)
-    if rc != 0 or len(mout) != len(mutants):
-        ctx.violation("driver drv_C10 died on the ARPA mutants (rc=%s, %d of %d lines)" % (rc, len(mout), len(mutants)),
+    if not items:
+        return False
+    rc, mout, merr = run_driver(dexe, ["arpa %s %d %d" % (it["path"], fbits(it["mult"]), it["mem"] or (1 << 30)) for it in items], timeout=1200)
+    if rc != 0 or len(mout) != len(items):
+        ctx.violation("driver drv_C10 died on the ARPA mutants (rc=%s, %d of %d lines)" % (rc, len(mout), len(items)),
                       {"stream": "loader-fuzz", "stderr": merr[-2000:]}, no_input=True)
         return True
-    model = {m[0]: parse_kv(l) for m, l in zip(mutants, mout)}
-    # real loader: one probing-family and one trie-family class per mutant
     jobs = []
-    plan = {}
-    for jid, kind, path, data, case in mutants:
-        cs = [ctx.rng.choice("PPR"), ctx.rng.choice("TAQB")]
-        plan[jid] = cs
-        for c in cs:
-            jobs.append("%s.%s %s %s tmp=%s nq=200 seed=%d enum=%d" % (jid, c, c, path, work, ctx.rng.randrange(1 << 30), ctx.rng.randrange(2)))
-    real = run_jobs(hexe, jobs)
+    for it, l in zip(items, mout):
+        it["model"] = parse_kv(l)
+        it["seeds"] = {}
+        for c in it["classes"]:
+            sd = ctx.rng.randrange(1 << 30)
+            it["seeds"][c] = sd
+            jobs.append("%s.%s %s %s tmp=%s nq=200 seed=%d enum=%d mult=%r%s" % (
+                it["id"], c, c, it["path"], work, sd, ctx.rng.randrange(2), it["mult"], " mem=%d" % it["mem"] if it["mem"] else ""))
+    real = run_jobs(hexe, jobs, limit=limit)
     oracle_left = oracle_budget
-    for jid, kind, path, data, case in mutants:
-        m = model[jid]
+    for it in items:
+        m, kind, data, jid = it["model"], it["kind"], it["data"], it["id"]
         kind0 = kind.split("+")[0]
-        feasible = m.get("maxcount", "-") == "-" or int(m["maxcount"]) <= mut.MAX_COUNT + 1100
-        for c in plan[jid]:
+        feasible = it.get("big") or m.get("maxcount", "-") == "-" or int(m["maxcount"]) <= mut.MAX_COUNT + 1100
+        small_enough = len(data) <= 200000
+        shown = data.decode("latin-1") if small_enough else data[:2000].decode("latin-1") + "...[%d bytes; regenerate with the seed]" % len(data)
+        for c in it["classes"]:
             r = real.get("%s.%s" % (jid, c), ("lost", {}))
             oc = outcome(r)
             mv = m.get(family(c), "?")
             mclass = "ok" if mv == "ok" else "error"
-            ctx.hist("arpa.kind_x_outcome", "%s|%s" % (kind0, oc))
-            ctx.hist("arpa.model_x_real", "%s|%s" % (mv, oc))
-            ctx.hist("arpa.class", c)
+            ctx.hist(tag + ".kind_x_outcome", "%s|%s" % (kind0, oc))
+            ctx.hist(tag + ".model_x_real", "%s|%s" % (mv, oc))
+            ctx.hist(tag + ".class", c)
+            ctx.hist(tag + ".mult", it["mult"])
             nontrivial = r[0] == "ok" or (m.get("parse") == "ok") or oc not in ("exc-format",)
-            ctx.count(("arpa", data, c), nontrivial=nontrivial)
+            ctx.count((tag, data, c, it["mult"]), nontrivial=nontrivial)
             if not feasible:
-                ctx.hist("arpa.skipped", "infeasible-count")
+                ctx.hist(tag + ".skipped", "infeasible-count")
                 continue
+            base = {"stream": "loader-fuzz", "kind": kind, "class": c, "mult": it["mult"], "building_memory": it["mem"], "query_seed": it["seeds"][c],
+                    "arpa_encoding": "latin-1", "model": m,
+                    "replay": "python3 check.py C10 --replay <this file>   (or: echo 'x %s f tmp=/tmp mult=%r%s' | harness c10_load)" % (
+                        c, it["mult"], " mem=%d" % it["mem"] if it["mem"] else "")}
             # (i) the property oracle
             if r[0] in ("crash", "hang", "lost"):
-                real0, model0, _ = arpa_signature(hexe, dexe, work, data, c)
-                small = shrink_arpa(hexe, dexe, work, data, c, (real0, model0)) if real0 in ("crash", "hang") else data
-                ctx.violation("loader-fuzz: %s %s on a mutated ARPA file (%s)" % (lmq.NAMES[c], oc, kind),
-                              {"stream": "loader-fuzz", "kind": kind, "class": c, "outcome": r[1], "arpa": small.decode("latin-1"),
-                               "arpa_encoding": "latin-1", "stderr": err_text(work, "%s.%s" % (jid, c)),
-                               "replay": "write arpa (latin-1 bytes) to f; echo 'x %s f tmp=/tmp' | harness c10_load" % c})
+                small = data
+                if small_enough and SHRINK_BUDGET[0] > 0:
+                    real0, model0, _ = arpa_signature(hexe, dexe, work, data, c, mult=it["mult"], mem=it["mem"], seed=it["seeds"][c])
+                    if real0 in ("crash", "hang"):
+                        small = shrink_arpa(hexe, dexe, work, data, c, (real0, model0), mult=it["mult"], seed=it["seeds"][c])
+                ctx.violation("loader-fuzz: %s %s on a mutated ARPA file (%s, multiplier %r)" % (lmq.NAMES[c], oc, kind, it["mult"]),
+                              dict(base, outcome=r[1], arpa=small.decode("latin-1") if small_enough else shown,
+                                   stderr=err_text(work, "%s.%s" % (jid, c))))
                 found = True
                 continue
             # (ii) accept/reject agrees with the model
             rclass = "ok" if r[0] == "ok" else "error"
             if rclass != mclass:
-                small = shrink_arpa(hexe, dexe, work, data, c, (r[0], mclass))
+                small = shrink_arpa(hexe, dexe, work, data, c, (r[0], mclass), mult=it["mult"], seed=it["seeds"][c]) if small_enough else data
                 ctx.violation("loader-fuzz: %s %s but the loader model says %s (%s)" % (lmq.NAMES[c], oc, mv, kind),
-                              {"stream": "loader-fuzz", "kind": kind, "class": c, "real": oc, "model": m,
-                               "arpa": small.decode("latin-1"), "arpa_encoding": "latin-1",
-                               "replay": "echo 'arpa f' | drv_C10 ; echo 'x %s f tmp=/tmp' | harness c10_load" % c})
+                              dict(base, real=oc, arpa=small.decode("latin-1") if small_enough else shown))
                 found = True
         # (iii) accepted and inside the C01 grammar: probabilities equal the L0 oracle
         strict_ok = m.get("strict") == "ok" and m.get("same") == "1" and m.get("ctx") == "1" and m.get("distinct") == "1"
-        any_ok = any(real.get("%s.%s" % (jid, c), ("lost", {}))[0] == "ok" for c in plan[jid])
+        any_ok = any(real.get("%s.%s" % (jid, c), ("lost", {}))[0] == "ok" for c in it["classes"])
         if m.get("parse") == "ok" and m.get("strict") == "ok" and m.get("same") == "0" and m.get("finite") == "1":
             ctx.violation("loader model and C01 grammar accept the same bytes but produce different models (%s)" % kind,
-                          {"stream": "loader-fuzz", "kind": kind, "model": m, "arpa": data.decode("latin-1"), "arpa_encoding": "latin-1"})
+                          {"stream": "loader-fuzz", "kind": kind, "model": m, "arpa": shown, "arpa_encoding": "latin-1"})
             found = True
-        if strict_ok and any_ok and oracle_left > 0 and feasible:
+        item_bad = any(real.get("%s.%s" % (jid, c), ("lost", {}))[0] in ("crash", "hang", "lost") for c in it["classes"])
+        if strict_ok and any_ok and oracle_left > 0 and feasible and it.get("queries") and not item_bad and len(ctx.violations) < 20:
             oracle_left -= 1
-            ctx.hist("arpa.oracle", "run")
+            ctx.hist(tag + ".oracle", "run")
             case2 = lmgen.Case()
-            case2.arpa, case2.queries, case2.mult, case2.abits = data, case.queries[:8], 1.5, case.abits
-            ops = lmq.make_ops(path, case2)
-            (rc1, o1, e1), (rc2, o2, e2) = lmq.run_both(c01h, c01d, ops, timeout=120)
+            case2.arpa, case2.queries, case2.mult, case2.abits = data, it["queries"][:8], it["mult"], it.get("abits", 22)
+            ops = lmq.make_ops(it["path"], case2)
+            (rc1, o1, e1), (rc2, o2, e2) = lmq.run_both(c01h, c01d, ops, timeout=30)
             if rc1 != 0 or rc2 != 0 or not o1 or not o2:
                 ctx.violation("lm-query harness or driver died on an accepted ARPA mutant (%s; rc %s/%s)" % (kind, rc1, rc2),
-                              {"stream": "loader-fuzz", "kind": kind, "arpa": data.decode("latin-1"), "arpa_encoding": "latin-1",
+                              {"stream": "loader-fuzz", "kind": kind, "arpa": shown, "arpa_encoding": "latin-1",
                                "stderr": (e1 + e2)[-1500:]})
                 found = True
                 continue
@@ -247,13 +262,70 @@ def arpa_stream(ctx, hexe, dexe, c01h, c01d, n_base, per_base, oracle_budget):
             # load-verdict of the six-way harness: classes the loader-fuzz harness did not try
             lv = [p for p in probs if p["kind"] == "load-verdict" and not (p["cls"] in "PR" and m.get("P") != "ok")]
             probs = [p for p in probs if p["kind"] != "load-verdict"] + lv
-            ctx.hist("arpa.oracle_words", min(st.get("words", 0), 1000) // 50 * 50)
+            ctx.hist(tag + ".oracle_words", min(st.get("words", 0), 1000) // 50 * 50)
             if probs:
-                ctx.violation("loader-fuzz: accepted ARPA mutant answers differently from the ARPA recursion (%s: %s)" % (kind, probs[0]["kind"]),
-                              {"stream": "loader-fuzz", "kind": kind, "first_problem": probs[0], "arpa": data.decode("latin-1"),
-                               "arpa_encoding": "latin-1", "queries": case2.queries})
-                found = True
-    ctx.notes["arpa_mutants"] = len(mutants)
+                key = None
+                if m.get("unkngram") == "1" and all(p.get("cls") in "PR" for p in probs):
+                    key = KEY_UNK_NGRAM
+                if ctx.violation("loader-fuzz: accepted ARPA mutant answers differently from the ARPA recursion (%s: %s)" % (kind, probs[0]["kind"]),
+                                 {"stream": "loader-fuzz", "kind": kind, "first_problem": probs[0], "arpa": shown,
+                                  "arpa_encoding": "latin-1", "queries": case2.queries, "mult": it["mult"]}, key=key):
+                    found = True
+    return found
+
+
+def arpa_stream(ctx, hexe, dexe, c01h, c01d, n_base, per_base, oracle_budget):
+    """structured mutants of ordinary generated models, probing multiplier swept per mutant"""
+    work = fresh_scratch("c10_arpa_%d" % os.getpid())
+    items = []
+    for bi in range(n_base):
+        case = lmgen.gen_case(ctx.rng, max_vocab=30, size="small")
+        for mi, (kind, data) in enumerate(mut.arpa_mutants(ctx.rng, case.arpa, per_base)):
+            jid = "a%d_%d" % (bi, mi)
+            path = os.path.join(work, jid + ".arpa")
+            with open(path, "wb") as f:
+                f.write(data)
+            items.append({"id": jid, "kind": kind, "path": path, "data": data, "mult": ctx.rng.choice(MULTS), "mem": 0,
+                          "classes": [ctx.rng.choice("PPR"), ctx.rng.choice("TAQB")], "queries": case.queries, "abits": case.abits})
+    ctx.notes["arpa_mutants"] = len(items)
+    return evaluate_arpa(ctx, hexe, dexe, c01h, c01d, work, items, oracle_budget, tag="arpa")
+
+
+def blank_stream(ctx, hexe, dexe, c01h, c01d, n_cases):
+    """SMALL models with deleted lower-order lines at small probing multipliers: real + blank entries compete for the 1-2
+    spare buckets of a table (exactly full / one too many), then 200 queries incl. unseen n-grams"""
+    work = fresh_scratch("c10_blank_%d" % os.getpid())
+    items = []
+    for i in range(n_cases):
+        data, meta = mut.small_blank_case(ctx.rng)
+        kind = "blanks-del%d-o%d" % (min(meta["deleted"], 3), meta["order"])
+        if ctx.rng.random() < 0.25:
+            ms = mut.arpa_mutants(ctx.rng, data, 1, two_step=0.0)
+            if ms:
+                kind, data = kind + "+" + ms[0][0], ms[0][1]
+        path = os.path.join(work, "s%d.arpa" % i)
+        with open(path, "wb") as f:
+            f.write(data)
+        items.append({"id": "s%d" % i, "kind": kind, "path": path, "data": data, "mult": ctx.rng.choice([1.0001, 1.2, 1.5]), "mem": 0,
+                      "classes": ["P", "R"] if ctx.rng.random() < 0.7 else ["P", ctx.rng.choice("TAQB")]})
+    return evaluate_arpa(ctx, hexe, dexe, c01h, c01d, work, items, 0, tag="blank", limit=5)
+
+
+def big_stream(ctx, hexe, dexe, c01h, c01d, n_base):
+    """bigram sections larger than the trie builder's minimum sort buffer (>= 2 sorted batches merged) with duplicate lines"""
+    work = fresh_scratch("c10_big_%d" % os.getpid())
+    items = []
+    for bi in range(n_base):
+        for mi, (kind, data) in enumerate(mut.big_duplicate_cases(ctx.rng)):
+            path = os.path.join(work, "g%d_%d.arpa" % (bi, mi))
+            with open(path, "wb") as f:
+                f.write(data)
+            items.append({"id": "g%d_%d" % (bi, mi), "kind": kind, "path": path, "data": data, "mult": 1.5, "big": True,
+                          "mem": ctx.rng.choice([1, mut.TRIE_MIN_SORT_BUFFER, 4096]) if mi or ctx.rng.random() < 0.7 else 0,
+                          "classes": [ctx.rng.choice("TAQB"), ctx.rng.choice("TAQB"), "P"] if mi else [ctx.rng.choice("TAQB"), "P"]})
+    found = evaluate_arpa(ctx, hexe, dexe, c01h, c01d, work, items, 0, tag="big", limit=90)
+    for it in items:
+        ctx.hist("big.batches", (it.get("model") or {}).get("batches", "?"))
     return found
 
 
@@ -304,7 +376,7 @@ def bin_stream(ctx, hexe, dexe, consts, n_base, per_class):
                                     "digest": w[1].get("digest"), "lm": ctx.rng.choice([0, 1, 2, 3])})
         ops = ["bin %s %s %d %d %d %d %s" % (m["path"], m["load"], 1 if m["enum"] else 0, m["need"], m["porder"], m["pmult"],
                                             ",".join(map(str, m["pcounts"]))) for m in mutants]
-        rc, mout, merr = stream.run_lines(dexe, ops, timeout=600)
+        rc, mout, merr = run_driver(dexe, ops, timeout=600)
         if rc != 0 or len(mout) != len(mutants):
             ctx.violation("driver drv_C10 died on binary mutants (rc=%s)" % rc, {"stderr": merr[-2000:]}, no_input=True)
             return True
@@ -322,11 +394,19 @@ def bin_stream(ctx, hexe, dexe, consts, n_base, per_class):
             replay = {"stream": "loader-fuzz", "kind": kind, "stored_class": m["stored"], "load_class": m["load"], "enumerate": m["enum"],
                       "load_method": m["lm"], "outcome": oc, "model": ml, "file_hex": m["data"][:4096].hex(), "file_len": len(m["data"]),
                       "replay": "xxd -r -p > f.bin; echo 'x %s f.bin enum=%d load=%d tmp=/tmp' | harness c10_load" % (m["load"], 1 if m["enum"] else 0, m["lm"])}
+            if "layout-mismatch" in ml and m["load"] == m["stored"]:
+                ctx.violation("loader-fuzz: the layout model (KV.Binary.modelSize) disagrees with the size of the binary file the real "
+                              "code wrote (%s)" % ml, replay)
+                found = True
+            size_edit = kind in SIZE_PARAM_KINDS
             if r[0] in ("crash", "hang", "lost"):
                 et = err_text(work, m["id"])
                 replay["stderr"] = et
                 key = None
-                if kind in SIZE_PARAM_KINDS:
+                # known finding only where the header's own size check cannot help: the edited parameters imply a layout that
+                # fits the file (model: ok, or sizeok=1: the `<unk>` check at the start of the vocabulary strings would reject the
+                # file, but only after the vocabulary lookup has already been used) or leave 64-bit / float range (unknown-size)
+                if size_edit and (mv in ("ok", "unknown-size") or " sizeok=1" in ml):
                     key = KEY_SIZE_PARAMS
                 elif kind == "bin-type-out-of-range" and "not a valid value for type 'ModelType'" in et:
                     key = KEY_ENUM_LOAD
@@ -343,7 +423,9 @@ def bin_stream(ctx, hexe, dexe, consts, n_base, per_class):
             if mv in ("ok", "arpa") or mv.startswith("error"):
                 mclass = "ok" if mv == "ok" else "error"
                 rclass = "ok" if r[0] == "ok" else "error"
-                if mclass != rclass:
+                # edited size parameters that still fit: the body is re-interpreted with another layout; checks inside the body
+                # (not part of the header model) may still reject it
+                if mclass != rclass and not (size_edit and mv == "ok"):
                     ctx.violation("loader-fuzz: %s %s on a binary file but the header model says %s (%s)" % (lmq.NAMES[m["load"]], oc, mv, kind), replay)
                     found = True
                     continue
@@ -394,7 +476,7 @@ def fixed_witnesses(ctx, hexe, dexe, consts):
     return found
 
 
-def run(ctx):
+def _setup(ctx):
     ok, bdir, lg = repo.build("tools")
     flags = [os.path.join(bdir, "lib", "libkenlm.a"), os.path.join(bdir, "lib", "libkenlm_util.a"), "-lz", "-lbz2", "-llzma", "-lrt", "-pthread"] if ok else []
     problems, consts = flow.proof_phase(ctx, "C10", probe="probe_C10.cc", probe_flags=flags, required=REQUIRED,
@@ -406,9 +488,84 @@ def run(ctx):
     dexe, c01d = lean.driver_path("drv_C10"), lean.driver_path("drv_C01")
     if not ok1 or not ok2 or not os.path.exists(dexe) or not os.path.exists(c01d) or not consts:
         flow.report_obligation_failures(ctx, problems + [x for x in (lg1 if not ok1 else None, lg2 if not ok2 else None) if x] or ["driver missing"], False)
+        return None
+    # private copies: concurrent checks of other properties prune the shared build cache
+    import shutil
+    priv = fresh_scratch("c10_exe_%d" % os.getpid())
+    hexe = shutil.copy2(hexe, os.path.join(priv, "c10_load"))
+    c01h = shutil.copy2(c01h, os.path.join(priv, "c01_lmquery"))
+    return problems, consts, hexe, dexe, c01h, c01d
+
+
+def replay(ctx, path):
+    """python3 check.py C10 --replay replays/C10/<hash>.json : re-run the recorded input on the current tree (real loader in
+    the sanitizer harness + model verdict) and report whether the recorded failure still shows.  Exit 1 if it does."""
+    import json
+    d = json.load(open(path))
+    st = _setup(ctx)
+    if st is None:
+        return ctx.finish(LEVEL)
+    problems, consts, hexe, dexe, c01h, c01d = st
+    work = fresh_scratch("c10_replay_%d" % os.getpid())
+    if "arpa" in d and "class" in d and "bytes; regenerate with the seed]" in d["arpa"]:
+        log("  replay: the record holds only the head of a large generated file; re-run the check with VERIF_SEED=%s" % d.get("seed"))
+    elif "arpa" in d and "class" in d:
+        data = d["arpa"].encode(d.get("arpa_encoding", "utf-8"))
+        mult, mem, cls = float(d.get("mult", 1.5)), int(d.get("building_memory") or 0), d["class"]
+        real, model, m = arpa_signature(hexe, dexe, work, data, cls, tag="replay", mult=mult, mem=mem, seed=int(d.get("query_seed", 1)))
+        log("  replay: %s real=%s model=%s (%s)" % (lmq.NAMES[cls], real, model, m))
+        bad = real in ("crash", "hang", "lost") or (real == "ok") != (model == "ok")
+        if bad:
+            ctx.violation("replay: %s %s, model %s — the recorded failure reproduces (%s)" % (lmq.NAMES[cls], real, model, d.get("what", "")[:200]),
+                          {"stream": "loader-fuzz", "replayed": path, "real": real, "model": m, "stderr": err_text(work, "replay")})
+    elif "file_hex" in d and d.get("file_len", 0) <= 4096:
+        data = bytes.fromhex(d["file_hex"])
+        p = os.path.join(work, "replay.bin")
+        open(p, "wb").write(data)
+        cls, en, lm = d["load_class"], 1 if d.get("enumerate") else 0, int(d.get("load_method", 0))
+        r = run_jobs(hexe, ["replay %s %s tmp=%s nq=200 seed=4242 enum=%d load=%d" % (cls, p, work, en, lm)])["replay"]
+        rc, out, _ = run_driver(dexe, ["bin %s %s %d - 0 0 0" % (p, cls, en)], 120)
+        mv = out[0].split()[1] if out and len(out[0].split()) > 1 else "?"
+        log("  replay: %s real=%s model=%s" % (lmq.NAMES[cls], outcome(r), mv))
+        bad = r[0] in ("crash", "hang", "lost") or mv == "ub" or ((mv == "ok") != (r[0] == "ok") and (mv in ("ok", "arpa") or mv.startswith("error")))
+        if bad:
+            ctx.violation("replay: %s %s, header model %s — the recorded failure reproduces (%s)" % (lmq.NAMES[cls], outcome(r), mv, d.get("what", "")[:200]),
+                          {"stream": "loader-fuzz", "replayed": path, "real": outcome(r), "model": mv, "stderr": err_text(work, "replay")},
+                          key=KEY_SIZE_PARAMS if d.get("kind") in SIZE_PARAM_KINDS and mv in ("ok", "unknown-size") else None)
+    else:
+        log("  replay: %s holds no replayable input (truncated file or obligation-only record)" % path)
+    _cleanup()
+    return ctx.finish(LEVEL)
+
+
+def run(ctx):
+    st = _setup(ctx)
+    if st is None:
         return
+    problems, consts, hexe, dexe, c01h, c01d = st
+    _run_streams(ctx, problems, consts, hexe, dexe, c01h, c01d)
+
+
+def _cleanup():
+    import glob
+    import shutil
+    from vlib.common import SCRATCH
+    for d in glob.glob(os.path.join(SCRATCH, "c10_*_%d" % os.getpid())):
+        shutil.rmtree(d, ignore_errors=True)
+
+
+def _run_streams(ctx, problems, consts, hexe, dexe, c01h, c01d):
+    try:
+        _run_streams0(ctx, problems, consts, hexe, dexe, c01h, c01d)
+    finally:
+        _cleanup()
+
+
+def _run_streams0(ctx, problems, consts, hexe, dexe, c01h, c01d):
     quick = ctx.tier == "quick"
     found = fixed_witnesses(ctx, hexe, dexe, consts)
+    found |= blank_stream(ctx, hexe, dexe, c01h, c01d, 300 if quick else 3000)
+    found |= big_stream(ctx, hexe, dexe, c01h, c01d, 1 if quick else 4)
     found |= arpa_stream(ctx, hexe, dexe, c01h, c01d, n_base=25 if quick else 150, per_base=40 if quick else 60,
                          oracle_budget=120 if quick else 1000)
     found |= bin_stream(ctx, hexe, dexe, consts, n_base=2 if quick else 12, per_class=45 if quick else 80)
@@ -417,6 +574,7 @@ def run(ctx):
                        "or the rejection was not the generic FormatLoadException; the kind x outcome histograms show how deep mutants get")
     ctx.assumptions += ["counts in mutated ARPA headers are bounded (<= %d) so that the requested allocation is feasible" % mut.MAX_COUNT,
                         "memory safety is observed with ASan+UBSan (-fno-sanitize=alignment), not proved",
-                        "binary files whose size parameters (order, counts, multiplier) were edited consistently are trusted by the loader "
-                        "(known finding); the header model makes no accept/reject claim there (unknown-size)"]
+                        "binary files whose size parameters (order, counts, multiplier) were edited so that the implied layout still fits "
+                        "the file are trusted by the loader (known finding, only where the model's size check passes or the arithmetic "
+                        "leaves 64 bits); everywhere else the header model (with C04's modelSize) gives a definite verdict"]
     flow.report_obligation_failures(ctx, problems, found)
